@@ -100,7 +100,8 @@ def generate(rng, opts):
     for _ in range(rng.choice([1, 2, 2, 3, 4])):
         inspect_mode = rng.choice(["static", "static", "static", "allow", "force"])
         op = {
-            "api": rng.choice(["load", "load", "loader", "dump", "main"]),
+            "api": rng.choice(["load", "load", "loader", "dump", "main", "check", "check_main"]),
+            "base_ref": rng.choice([None, "v2"]),
             "target": rng.choice([PK, PK, PK, "path", "c15nothere", EXT, f"{PK}.a"]),
             "allow_inspection": inspect_mode != "static",
             "force_inspection": inspect_mode == "force",
@@ -237,6 +238,9 @@ def _do_op(griffe, op, sp, target):
         out = io.StringIO()
         dump([str(target)], output=out, search_paths=[sp], full=op["store_source"], **kw, **res)
         return None
+    if op["api"] in ("check", "check_main"):
+        _do_check(griffe, op, sp)
+        return None
     from _griffe.cli import main
 
     argv = ["dump", str(target), "-s", sp, "-o", os.devnull]
@@ -254,6 +258,79 @@ def _do_op(griffe, op, sp, target):
         argv.append("-B")
     main(argv)
     return None
+
+
+_repo_cache = {}
+
+
+def _ensure_repo(sp):
+    """A Git repository holding the world's packages (two tagged commits), built on first use."""
+    import shutil
+
+    from simgriffe.props import c20
+
+    root = os.path.dirname(sp)
+    repo = os.path.join(root, "repo")
+    if os.path.isdir(repo):
+        return repo
+    os.makedirs(repo)
+    for name in os.listdir(sp):
+        if name != "sent":
+            src = os.path.join(sp, name)
+            (shutil.copytree if os.path.isdir(src) else shutil.copy)(src, os.path.join(repo, name))
+    c20._git(repo, "init", "-q", "-b", "main")
+    c20._git(repo, "add", "-A", env=c20._env(1))
+    c20._git(repo, "commit", "-q", "-m", "one", env=c20._env(1))
+    c20._git(repo, "tag", "v1", env=c20._env(1))
+    with open(os.path.join(repo, "README"), "w") as fh:
+        fh.write("two\n")
+    c20._git(repo, "add", "-A", env=c20._env(2))
+    c20._git(repo, "commit", "-q", "-m", "two", env=c20._env(2))
+    c20._git(repo, "tag", "v2", env=c20._env(2))
+    return repo
+
+
+def _do_check(griffe, op, sp):
+    """`griffe check` on a repository that holds the hostile package: two (or one) load_git plus a working-tree load."""
+    from simgriffe.props import c20
+
+    repo = _ensure_repo(sp)
+    old_cwd = os.getcwd()
+    old_env = {k: os.environ.get(k) for k in c20.GIT_ENV}
+    os.environ.update(c20.GIT_ENV)
+    os.chdir(repo)
+    try:
+        if op["api"] == "check":
+            from _griffe.cli import check
+
+            return check(PK, "v1", base_ref=op.get("base_ref"), allow_inspection=op["allow_inspection"], force_inspection=op["force_inspection"], find_stubs_package=op["find_stubs_package"], color=False)
+        from _griffe.cli import main
+
+        argv = ["check", PK, "-a", "v1"]
+        if op.get("base_ref"):
+            argv += ["-b", op["base_ref"]]
+        if not op["allow_inspection"]:
+            argv.append("-X")
+        if op["force_inspection"]:
+            argv.append("-x")
+        if op["find_stubs_package"]:
+            argv.append("-B")
+        return main(argv)
+    finally:
+        os.chdir(old_cwd)
+        for k, v in old_env.items():
+            if v is None:
+                os.environ.pop(k, None)
+            else:
+                os.environ[k] = v
+        try:
+            import colorama
+
+            colorama.deinit()
+            ci = colorama.initialise
+            ci.orig_stdout = ci.orig_stderr = ci.wrapped_stdout = ci.wrapped_stderr = None
+        except Exception:  # noqa: BLE001
+            pass
 
 
 def _compiled_in_tree(top):
@@ -289,6 +366,11 @@ def execute(plan, ctx):
         sp = w.sp_dirs[0]
         sent_dir = os.path.join(sp, "sent")
         _audit["root"] = w.root
+        import tempfile
+
+        old_tempdir = tempfile.tempdir
+        os.makedirs(os.path.join(w.root, "tmp"), exist_ok=True)
+        tempfile.tempdir = os.path.join(w.root, "tmp")  # temporary Git worktrees (check ops) live under the world root
         orig_path_obj = sys.path
         orig_path = list(sys.path)
         orig_cwd = os.getcwd()
@@ -372,6 +454,7 @@ def execute(plan, ctx):
         finally:
             _audit["rec"] = None
             _audit["root"] = None
+            tempfile.tempdir = old_tempdir
             sys.path = orig_path_obj
             orig_path_obj[:] = orig_path
             os.chdir(orig_cwd)
